@@ -192,6 +192,16 @@ func exportSections(app *sifapp.SifchainApp) (map[string]json.RawMessage, int64,
 	return m, ex.Height, ex.AppState, nil
 }
 
+// initChainHeight: the block height of the context InitChain runs InitGenesis with, for the InitialHeight the harness
+// passes: baseapp (cosmos-sdk v0.45) puts InitialHeight into the header only when it is greater than 1; a chain that
+// starts at height 1 (or 0) initialises its genesis with a header of height 0.  This is the `h` of `epochsRebased`.
+func initChainHeight(initialHeight int64) int64 {
+	if initialHeight > 1 {
+		return initialHeight
+	}
+	return 0
+}
+
 // importApp initialises a fresh application from an exported app state at the given initial height
 // and commits the genesis state.
 func importApp(name string, appState json.RawMessage, initialHeight, genesisTime int64, blacklist []string) (c *Chain, perr string) {
@@ -563,7 +573,7 @@ func roundTripPilot(out *Out, p *Pilot, idx int, obs map[string]int) {
 		out.Emit(fmt.Sprintf("chk docEq/export.failed.B tag=export.failed.B | ok %s", sanitize(err.Error())), "true", "export-error", false)
 		return
 	}
-	emitSections(out, cdc, what, secA, secB, heightA, false)
+	emitSections(out, cdc, what, secA, secB, initChainHeight(heightA), false)
 	var pools, addrs []string
 	for _, pl := range p.pools() {
 		pools = append(pools, pl.ExternalAsset.Symbol)
